@@ -17,6 +17,11 @@ claimed["C09"] = ("other", "Bounded symbolic execution of the real merge sorter,
 claimed["C13"] = ("other", "One-step symbolic check of the real stack code against the LIFO model from every state of size <= capacity (capacities 1..4 and the default 16), constructors from 0..33 initial values; contents symbolic.", "symbolic execution of go/ssa + SMT (z3), one-step induction", "3/C13")
 claimed["C02"] = ("other", "One-step inductive symbolic check of the real Set code: pre-state any strictly ascending content of size <= N under a collator given as an (Ackermannized) uninterpreted function - default, reversed and coarse total preorders in one run - plus the real reflective collator for int and string; one operation with a symbolic value; asserts strict ascent, duplicate-freedom and agreement with the mathematical set.", "symbolic execution of go/ssa + SMT (z3, cvc5 fallback), uninterpreted-function collator, one-step induction", "3/C02")
 claimed["C03"] = ("other", "One-step inductive symbolic check of the real Catalog code against an insertion-ordered map model for key types int, string, rune, float64, any and *int (distinct pointers with symbolic pointees); every view compared with the model; Go map iteration order is a choice point (all orders for n<=3).", "symbolic execution of go/ssa + SMT (z3), one-step induction, symbolic map model", "3/C03")
+claimed["C14"] = ("other", "One-step inductive symbolic check of the real Map code against a Go-map model (key types int, string, rune, any); views compared as multisets under enumerated iteration orders of the symbolic map model; constructors with repeated keys.", "symbolic execution of go/ssa + SMT (z3), one-step induction, symbolic map model", "3/C14")
+claimed["C15"] = ("other", "Bounded symbolic execution of And/Or/Sans/Xor on arbitrary reachable operand sets with symbolic contents under an uninterpreted-function collator and the real collator for int; result ordered, duplicate-free, exact members; operands unchanged and independent of the result.", "symbolic execution of go/ssa + SMT (z3; cvc5 for 64-bit natural order), uninterpreted-function collator", "3/C15")
+claimed["C16"] = ("other", "Bounded symbolic execution of Merge, Extract and Concatenate on operands with symbolic contents (key coincidences chosen by the solver); documented laws through every view; purity and absence of shared mutable state by writing through one side and re-checking the other; aliased operands.", "symbolic execution of go/ssa + SMT (z3)", "3/C16")
+claimed["C18"] = ("other", "Bounded symbolic execution of every API entry point that accepts or returns a Go array, map or sequence: one side is overwritten with fresh symbolic values at every position, the other must still read its old contents (unsat of 'they differ'); self-operand bulk operations compared with copy semantics.", "symbolic execution of go/ssa + SMT (z3)", "3/C18")
+claimed["C20"] = ("other", "Finite matrix of universal constructors x argument forms x element types with symbolic contents, each compared with the class-level constructor; CDCN-source form via a stub notation with symbolic parse result; Stack/Queue sizes spanning the default capacity; Association for ten type pairs.", "symbolic execution of go/ssa + SMT (z3), form/type matrix enumerated", "3/C20")
 reasons = {}
 
 checks = []
